@@ -377,7 +377,26 @@ func checkAccessors(u *url.Url, tokens string) {
 }
 
 // all per-state checks on a URL reached by a history under the default configuration
+// where the per-state leaf cases of the state-scoped properties (C03, C04, C19) are emitted
+var stateOut *Out
+var reparseSeen = map[string]bool{}
+
 func checkState(u *url.Url, props map[string]bool, tokens string) {
+	if stateOut != nil {
+		if props["C04"] || props["C19"] {
+			leafObs(stateOut, u, defaultCfg)
+		}
+		if props["C03"] {
+			// the tie of C03: the parser on the serialization the Go code produced, and the serializer on the reached state
+			leafObs(stateOut, u, defaultCfg)
+			if h := u.Href(false); !reparseSeen[h] {
+				reparseSeen[h] = true
+				hh := &Hist{}
+				hh.Parse(defaultCfg, h)
+				stateOut.EmitHist("r", hh)
+			}
+		}
+	}
 	if props["C03"] {
 		checkRoundTrip(u, tokens)
 	}
